@@ -41,6 +41,7 @@ def run(ctx):
     per = 6 if thorough else 2
     if len(res) != len(scns) * per:
         raise ToolError("c08 answered %d of %d; stderr:\n%s" % (len(res), len(scns) * per, ctx.last_stderr[-3000:]))
+    confirmed = {}
     for rr in res:
         ctx.count()
         if rr.get("nontrivial"):
@@ -48,11 +49,18 @@ def run(ctx):
         if not rr["ok"]:
             rp = dict(scns[rr["id"]])
             rp["version"], rp["seg"] = rr["variant"].split("/")
-            again = ctx.run_harness("c08", [rp])        # V2: candidates must reproduce alone
-            if again and not again[0]["ok"]:
-                ctx.violation(again[0]["sig"], again[0]["detail"], rp)
-            else:
-                ctx.notes.setdefault("unreproduced_candidates", []).append({"scenario": rp, "first": rr["detail"][:300]})
+            kind = rr["sig"].split(":")[-1]
+            st = confirmed.setdefault(kind, {"ok": 0, "tries": 0})
+            if st["ok"]:
+                ctx.violation(rr["sig"], rr["detail"], rp)
+            elif st["tries"] < 4:
+                st["tries"] += 1
+                again = ctx.run_harness("c08", [rp])        # V2: candidates must reproduce alone
+                if again and not again[0]["ok"]:
+                    st["ok"] += 1
+                    ctx.violation(again[0]["sig"], again[0]["detail"], rp)
+                else:
+                    ctx.notes.setdefault("unreproduced_candidates", []).append({"scenario": rp, "first": rr["detail"][:300]})
     ctx.exhaustive = True
     ctx.traces_validated = len(res)
     ctx.sample({"scenario": scns[50]})
